@@ -1,5 +1,6 @@
 import Lean.Data.Json
 import Adc.Steps
+import Adc.Indices
 /- JSON wire format of the line protocol (untrusted glue: parsing only). -/
 namespace Adc.Wire
 open Lean
@@ -94,5 +95,12 @@ def jObj : Obj → Json
 def jTerm (t : Term) : Json :=
   Json.mkObj [("c", jRat t.coef), ("o", Json.arr (t.objs.map jObj).toArray), ("x", jIdxs t.contr)]
 def jExpr (e : Expr) : Json := Json.arr (e.map jTerm).toArray
+
+def jSub (m : Sub) : Json := Json.arr (m.map fun e => Json.arr #[jIdx e.1, jIdx e.2]).toArray
+def pName (j : Json) : P Name := do
+  let a ← arr j
+  if a.size != 2 then throw "name arity"
+  pure (← a[0]!.getNat?, ← a[1]!.getNat?)
+def jNames (l : List Name) : Json := Json.arr (l.map fun nm => Json.arr #[nm.1, nm.2]).toArray
 
 end Adc.Wire
